@@ -108,16 +108,14 @@ theorem diagFrom_frame (n m len s : Nat) (mat D : Mat) (hR : Rect mat n m)
     · cases h
 
 theorem diagFrom_tail (n m len s : Nat) (mat D : Mat) (hR : Rect mat n m)
-    (hs : s + len ≤ n ∧ s + len ≤ m) (hS : SmallRun (List.range' s len) mat)
+    (hs : s + len ≤ n ∧ s + len ≤ m)
     (h : diagFrom (List.range' s len) mat = some D) :
     ∀ i j, s ≤ i → i < j → j < s + len → get D i i = 0 → get D j j = 0 := by
   induction len generalizing s mat with
   | zero => intro i j _ _ _; omega
   | succ len ih =>
-    have h' := h
-    rw [List.range'_succ] at h hS
+    rw [List.range'_succ] at h
     unfold diagFrom at h
-    unfold SmallRun at hS
     split at h
     · rename_i M hM
       obtain ⟨M', hM', hRM⟩ := diagStep_some mat n m s hR (by omega) (by omega)
@@ -130,25 +128,20 @@ theorem diagFrom_tail (n m len s : Nat) (mat D : Mat) (hR : Rect mat n m)
         · rw [hfr] at h0; exact absurd h0 hne
         · -- nothing found: the block is zero and stays zero
           have hzz := findPivot_zero mat i n m hR.nrows (hR.ncols (by omega)) hz
-          have hB : Block mat n m i := by
-            intro k c h1 h2 h3 h4
-            rcases hzz k c h1 h2 h3 h4 with h0' | hbig
-            · exact h0'
-            · have := hS.1 k c; omega
+          have hB : Block mat n m i := hzz
           have hBM := diagStep_block mat M n m i i hR (Nat.le_refl _) (by omega) (by omega) hB hM
           have hBD := diagFrom_block n m i len (i + 1) M D hRM (by omega) (by omega) hBM h
           exact hBD j j (by omega) (by omega) (by omega) (by omega)
-      · exact ih (s + 1) M hRM (by omega) (hS.2 M hM) h i j (by omega) hij (by omega) h0
+      · exact ih (s + 1) M hRM (by omega) h i j (by omega) hij (by omega) h0
     · cases h
 
 /-- zeros of the diagonal of the diagonalised matrix are trailing -/
 theorem diagonalize_tail (mat D : Mat) (n m : Nat) (hR : Rect mat n m) (hn : 0 < n)
-    (hS : SmallRun (List.range (min n m)) mat) (h : diagonalize mat = some D) :
+    (h : diagonalize mat = some D) :
     ∀ i j, i < j → j < min n m → get D i i = 0 → get D j j = 0 := by
   unfold diagonalize at h
   rw [hR.nrows, hR.ncols hn, List.range_eq_range'] at h
-  rw [List.range_eq_range'] at hS
   intro i j hij hj h0
-  exact diagFrom_tail n m (min n m) 0 mat D hR (by omega) hS h i j (Nat.zero_le _) hij (by omega) h0
+  exact diagFrom_tail n m (min n m) 0 mat D hR (by omega) h i j (Nat.zero_le _) hij (by omega) h0
 
 end DSymVerif.Inv
